@@ -6,6 +6,17 @@ pub fn main() {
     let seed: u64 = a.get(3).and_then(|s| s.parse().ok()).unwrap_or(0);
     let only = match (a.get(4).and_then(|s| s.parse().ok()), a.get(5).and_then(|s| s.parse().ok())) { (Some(x), Some(y)) => Some((x, y)), _ => None };
     std::panic::set_hook(Box::new(|_| {}));
+    if group == "deep" {
+        // verif_native deep <tier> <seed> <probe> <depth>: ONE deep-nesting probe of the public API, in its own process (a stack
+        // overflow aborts the process, catch_unwind cannot see it), on a thread with an 8 MiB stack (the Linux main-thread default)
+        let (probe, depth) = only.unwrap_or((0, 1));
+        let h = std::thread::Builder::new().stack_size(8 << 20).spawn(move || checks::deep_probe(probe, depth)).unwrap();
+        match h.join() {
+            Ok(v) => println!("{}", v),
+            Err(_) => println!("{}", serde_json::json!({"probe": probe, "depth": depth, "outcome": "panic"})),
+        }
+        return;
+    }
     if group == "kani_replay" {
         // verif_native kani_replay <harness> <hex;hex;...>: run the Kani harness natively on the concrete values Kani found
         let harness = a.get(2).cloned().unwrap_or_default();
